@@ -257,11 +257,8 @@ impl<'a> TimeZoneRef<'a> {
                         } else if local_leap_time >= transition_end
                             && local_leap_time <= transition_start
                         {
-                            if prev.ut_offset < after_ltt.ut_offset {
-                                return Ok(crate::MappedLocalTime::Ambiguous(prev, after_ltt));
-                            } else {
-                                return Ok(crate::MappedLocalTime::Ambiguous(after_ltt, prev));
-                            }
+                            // `prev` has the larger offset here, so it denotes the earlier instant
+                            return Ok(crate::MappedLocalTime::Ambiguous(prev, after_ltt));
                         }
                     }
                     Ordering::Equal => {
